@@ -27,37 +27,41 @@ def batches(kinds, maxlen):
     return out
 def with_nh(scs, nhs): return [dict(s, NH=nh) for s in scs for nh in nhs]
 SEQ_CBMC = ['--unwind', '6', '--object-bits', '10']
-LCS_CBMC = ['--unwind', '8', '--object-bits', '10']
+NATF = ['-fno-sanitize=null,pointer-overflow']   # replay build: stale static temps make &p->f of a null p on disabled paths (never accessed)
+LCS_CBMC = ['--unwind', '10', '--object-bits', '10']
 HARNESSES = [
   dict(name='batch_step', unit='batch', harness='h_batch.c', defines={'PART': 1}, cbmc=SEQ_CBMC, timeout=600,
        scenarios_quick=with_nh(batches([1, 2], 3), [3]) + with_nh(batches([1, 2], 2), [0, 1]),
        scenarios_thorough=with_nh(batches([1, 2], 3), [0, 1, 2, 3, 4]) + with_nh([b for b in batches([1, 2, 3], 3) if 3 in b.values()], [2]),
        desc='handle_operations on one batch of <=3 real cpq_operation objects (kinds concrete per query, priorities symbolic over all int) from any heapified state of NH elements: statuses set, results explained by some sequential order, contents conserved, heap invariant and mark==size==my_size re-established',
        bounds={'batch': '<=3 operations, every push/pop pattern', 'heap elements before the batch': 'quick 0,1,3 / thorough 0..4', 'priorities': 'all int values'}),
-  dict(name='heap_kernels', unit='batch', harness='h_batch.c', cbmc=['--unwind', '7', '--object-bits', '10'], timeout=900,
-       scenarios_quick=[{'PART': 2, 'NMAX': 4}, {'PART': 3, 'NMAX': 5}], scenarios_thorough=[{'PART': 2, 'NMAX': 6}, {'PART': 3, 'NMAX': 7}],
-       desc='heapify() / reheap() from any state with n<=NMAX elements, symbolic mark, [0,mark) a heap, arbitrary tail: result is a heap, mark correct, contents conserved, tail untouched',
-       bounds={'elements': 'quick <=4 (heapify) / <=5 (reheap), thorough <=6 / <=7', 'mark': 'any 0..n', 'priorities': 'all int values'}),
-  dict(name='agg_2t', unit='agg2', harness='h_agg.c', defines={'NT': 2, 'NOPS': 2, 'ROUNDS': 2}, scenarios=[{}], timeout=900, cbmc=LCS_CBMC,
+  dict(name='heap_kernels', unit='batch', harness='h_batch.c', cbmc=['--unwind', '9', '--object-bits', '10'], timeout=900,
+       scenarios_quick=[{'PART': 2, 'NN': n, 'MM': n - 1} for n in range(1, 8)] + [{'PART': 2, 'NN': 4, 'MM': 0}, {'PART': 2, 'NN': 5, 'MM': 2}] +
+                       [{'PART': 3, 'NN': n, 'MM': m} for n in (1, 2, 4, 7) for m in sorted(set([0, n // 2, n]))],
+       scenarios_thorough=[{'PART': 2, 'NN': n, 'MM': m} for n in range(1, 8) for m in range(0, n) if n <= 6 or m >= 4] +
+                          [{'PART': 3, 'NN': n, 'MM': m} for n in range(1, 8) for m in range(0, n + 1)],
+       desc='heapify() / reheap() from any state with NN elements (all int values), mark MM (both concrete per query), [0,mark) a heap, arbitrary tail: result is a heap, mark correct, contents conserved, tail untouched. MM = NN-1 is the inductive step of heapify (one sift-up)',
+       bounds={'elements': '<=7', 'mark': 'quick: selected (incl. every one-element sift-up up to 7 elements); thorough: every 0..n', 'priorities': 'all int values'}),
+  dict(name='agg_2t', unit='agg2', harness='h_agg.c', defines={'NT': 2, 'NOPS': 2, 'ROUNDS': 2}, scenarios=[{}], timeout=900, cbmc=LCS_CBMC, native_cflags=NATF,
        thorough_override={'defines': {'NT': 2, 'NOPS': 2, 'ROUNDS': 3}, 'timeout': 2400},
        desc='real aggregator::execute/start_handle_operations, 2 threads x 2 operations, client handler: handler invocations exclusive, every operation handled exactly once before its execute() returns, result visible, no lost operation (blocked-state oracle), aggregator idle at the end',
        bounds={'threads': 2, 'ops_per_thread': 2, 'free_rounds': '2 quick / 3 thorough', 'forced_rounds': 2, 'loop_unroll': 2}),
-  dict(name='agg_3t', unit='agg3', harness='h_agg.c', defines={'NT': 3, 'NOPS': 1, 'ROUNDS': 2}, scenarios=[{}], timeout=900, cbmc=LCS_CBMC,
+  dict(name='agg_3t', unit='agg3', harness='h_agg.c', defines={'NT': 3, 'NOPS': 1, 'ROUNDS': 2}, scenarios=[{}], timeout=900, cbmc=LCS_CBMC, native_cflags=NATF,
        thorough_override={'defines': {'NT': 3, 'NOPS': 1, 'ROUNDS': 3}, 'timeout': 2400},
        desc='same, 3 threads x 1 operation (a waiting next handler plus a waiter behind it)',
        bounds={'threads': 3, 'ops_per_thread': 1, 'free_rounds': '2 quick / 3 thorough', 'forced_rounds': 2, 'loop_unroll': 2}),
-  dict(name='agg_3t2', unit='agg3x2', harness='h_agg.c', defines={'NT': 3, 'NOPS': 2, 'ROUNDS': 2}, scenarios=[{}], timeout=3000, cbmc=LCS_CBMC, tiers=['thorough'],
+  dict(name='agg_3t2', unit='agg3x2', harness='h_agg.c', defines={'NT': 3, 'NOPS': 2, 'ROUNDS': 2}, scenarios=[{}], timeout=3000, cbmc=LCS_CBMC, native_cflags=NATF, tiers=['thorough'],
        desc='same, 3 threads x 2 operations', bounds={'threads': 3, 'ops_per_thread': 2, 'free_rounds': 2, 'forced_rounds': 2, 'loop_unroll': 2}),
-  dict(name='lin_2t', unit='one2', harness='h_cpq.c', defines={'NT': 2, 'ROUNDS': 1}, timeout=900, cbmc=LCS_CBMC,
+  dict(name='lin_2t', unit='one2', harness='h_cpq.c', defines={'NT': 2, 'ROUNDS': 1}, timeout=900, cbmc=LCS_CBMC, native_cflags=NATF,
        scenarios=[{'K0': 0, 'K1': 1, 'N0': 1}, {'K0': 1, 'K1': 0, 'N0': 2}, {'K0': 1, 'K1': 1, 'N0': 1}, {'K0': 0, 'K1': 0, 'N0': 0}],
        desc='full real code, 2 threads x 1 operation (K: 0 push(p), 1 try_pop) on a queue holding N0 elements; priorities symbolic in {0,1,2}; oracles: no lost operation (blocked-state), history linearizable as a priority queue, final contents = initial + pushed - popped, heap invariant, mark==size==my_size, aggregator idle',
        bounds={'threads': 2, 'ops_per_thread': 1, 'free_rounds': 1, 'forced_rounds': 2, 'loop_unroll': 1, 'priorities': '3 values', 'initial elements': '0..2'}),
-  dict(name='lin_2t_deep', unit='one2k2', harness='h_cpq.c', timeout=3000, cbmc=LCS_CBMC, tiers=['thorough'], mem_gb=16,
+  dict(name='lin_2t_deep', unit='one2k2', harness='h_cpq.c', timeout=3000, cbmc=LCS_CBMC, native_cflags=NATF, tiers=['thorough'], mem_gb=16,
        scenarios=[dict(K0=a, K1=b, N0=n, ROUNDS=r, **q) for (a, b) in [(0, 1), (1, 0), (1, 1), (0, 0)] for n in (0, 1, 2) for (r, q) in [(2, {}), (3, {'NOQUIESCE': None})]],
        defines={'NT': 2},
        desc='as lin_2t with loops unrolled twice (a batch of two is handled without losing a round) and more schedules: 2 free + 2 forced rounds with the blocked-state oracle, and 3 free rounds (safety oracles only)',
        bounds={'threads': 2, 'ops_per_thread': 1, 'free_rounds': '2 (+2 forced) | 3 (no forced)', 'loop_unroll': 2, 'priorities': '3 values', 'initial elements': '0..2'}),
-  dict(name='lin_3t', unit='one3', harness='h_cpq.c', defines={'NT': 3, 'ROUNDS': 1}, timeout=3000, cbmc=LCS_CBMC, tiers=['thorough'], mem_gb=16,
+  dict(name='lin_3t', unit='one3', harness='h_cpq.c', defines={'NT': 3, 'ROUNDS': 1}, timeout=3000, cbmc=LCS_CBMC, native_cflags=NATF, tiers=['thorough'], mem_gb=16,
        scenarios=[{'K0': 0, 'K1': 1, 'K2': 1, 'N0': 1}, {'K0': 1, 'K1': 0, 'K2': 0, 'N0': 1}, {'K0': 0, 'K1': 0, 'K2': 1, 'N0': 0}, {'K0': 1, 'K1': 1, 'K2': 1, 'N0': 2}],
        desc='full real code, 3 threads x 1 operation', bounds={'threads': 3, 'ops_per_thread': 1, 'free_rounds': 1, 'forced_rounds': 2, 'loop_unroll': 1, 'priorities': '3 values'}),
 ]
